@@ -705,6 +705,9 @@ func (rt *runtime) toValue(value interface{}) Value {
 			typ := val.Type()
 
 			return objectValue(rt.newNativeFunction(name, file, line, func(c FunctionCall) Value {
+				// Copy() shares this function with the copy: convert arguments and
+				// results in the runtime of the call, not in the one that wrapped val.
+				rt := c.runtime
 				nargs := typ.NumIn()
 
 				if len(c.ArgumentList) != nargs {
